@@ -7,6 +7,7 @@ import EpgVerif.Model.Coll
 import EpgVerif.Model.Shape
 import EpgVerif.Model.Sim
 import EpgVerif.Model.RF
+import EpgVerif.Model.Guards
 /-
   Line-protocol driver over the executable model at `K := CF` (DESIGN Appendix A).
   One request per line; floats travel as the decimal of their IEEE-754 bits.
@@ -258,6 +259,93 @@ def simRun (d : DState) : List String :=
   [s!"sim {res.length}"] ++ res.map (fun (t, vals) => s!"e {bits t.re} | " ++ " | ".intercalate (vals.map showVals))
     ++ [s!"times " ++ " ".intercalate (times.map (fun t => bits t.re))]
 
+/-! guards (C20): IEEE instances of the numeric predicates -/
+def cabs (a : CF) : Float := Float.sqrt (a.re * a.re + a.im * a.im)
+def closeCF (a b : CF) : Bool := cabs (a - b) <= 1e-8 + 1e-5 * cabs b
+def close0F (x : Float) : Bool := x.abs <= 1e-8
+def cfList : List String → List CF
+  | re :: im :: rest => ⟨fOfTok re, fOfTok im⟩ :: cfList rest
+  | _ => []
+def triplesOf : List CF → List (CF × CF × CF)
+  | a :: b :: c :: rest => (a, b, c) :: triplesOf rest
+  | _ => []
+def chunks (n : Nat) (xs : List Float) : List (List Float) :=
+  if n == 0 then [] else (List.range (xs.length / n)).map (fun i => (xs.drop (i * n)).take n)
+def splitOnTok (sep : String) (toks : List String) : List (List String) :=
+  toks.foldl (fun (acc : List (List String)) t =>
+    if t == sep then acc ++ [[]]
+    else match acc.reverse with
+      | [] => [[t]]
+      | last :: rest => rest.reverse ++ [last ++ [t]]) [[]]
+def csv (t : String) : List String := if t == "" || t == "-" then [] else t.splitOn ","
+
+partial def parseSeq : List String → List Guards.SeqItem × List String
+  | [] => ([], [])
+  | "]" :: rest => ([], rest)
+  | ")" :: rest => ([], rest)
+  | "[" :: rest =>
+    let (inner, rest') := parseSeq rest
+    let (more, rest'') := parseSeq rest'
+    (Guards.SeqItem.list inner :: more, rest'')
+  | "(" :: rest =>
+    let (inner, rest') := parseSeq rest
+    let (more, rest'') := parseSeq rest'
+    (Guards.SeqItem.multi inner :: more, rest'')
+  | "op0" :: rest => let (more, r) := parseSeq rest; (Guards.SeqItem.op false :: more, r)
+  | "op1" :: rest => let (more, r) := parseSeq rest; (Guards.SeqItem.op true :: more, r)
+  | _ :: rest => let (more, r) := parseSeq rest; (Guards.SeqItem.other :: more, r)
+
+def guardCmd (toks : List String) : String :=
+  let verdict (b : Bool) := if b then "raise" else "ok"
+  match toks with
+  | "neg" :: xs => verdict (Guards.anyNegative (fun (x : Float) => x < 0) (xs.map fOfTok))
+  | "zeroshift" :: xs => verdict (Guards.zeroShift (fun (x : Float) => x.abs <= 1e-8) (xs.map fOfTok))
+  | ["ncomp", pyint, n] => verdict (Guards.badNcomp (pyint == "1") n.toNat!)
+  | ["grid", a, b] =>
+      let o := fun (t : String) => if t == "none" then none else some (fOfTok t)
+      verdict (Guards.noGrid (fun (x : Float) => x != 0) (o a) (o b))
+  | ["stshape", sh] => verdict (Guards.badStatesShape (shapeOfTok sh))
+  | "stsym" :: vals => verdict (Guards.badSymmetry closeCF (fun (a : CF) => Conj.conj a) (triplesOf (cfList vals)))
+  | ["scshape", sh] => verdict (Guards.badScalarShape (shapeOfTok sh))
+  | "sccoef" :: vals => verdict (Guards.badScalarCoeff closeCF (fun (a : CF) => Conj.conj a) (triplesOf (cfList vals)))
+  | ["mshape", sh] => verdict (Guards.badMatrixShape (shapeOfTok sh))
+  | "mcoef" :: vals =>
+      let v := (cfList vals).toArray
+      verdict (Guards.badMatrixCoeff closeCF (fun (a : CF) => Conj.conj a) (fun i j => v.getD (3 * i + j) 0))
+  | ["bcast2", a, b] => verdict (Guards.notBroadcastable (shapeOfTok a) (shapeOfTok b))
+  | "kinetic" :: sh :: vals =>
+      let shape := shapeOfTok sh
+      let xs := vals.map fOfTok
+      let c := shape.getLastD 1
+      let rows := chunks c xs
+      let cols := (List.range c).map (fun j => rows.map (fun r => r.getD j 0))
+      verdict (Guards.badKinetic close0F (fun l => l.foldl (· + ·) 0) shape cols)
+  | "conserve" :: n :: vals =>
+      let n := n.toNat!
+      let xs := vals.map fOfTok
+      let rows := chunks n (xs.take (n * n))
+      let dens := xs.drop (n * n)
+      verdict (Guards.notConserving close0F (fun a b => (a.zip b).foldl (fun acc (x, y) => acc + x * y) 0) rows dens)
+  | ["diffusion", dsh, ksh] => verdict (Guards.badDiffusion (shapeOfTok dsh) (shapeOfTok ksh))
+  | "decl" :: rest =>
+      match splitOnTok ";" rest with
+      | [ps, o1, o2] =>
+        let d : Guards.Decl := {
+          order1 := o1.map (fun t => match t.splitOn ":" with | [v, p] => (v, csv p) | _ => (t, [])),
+          order2 := o2.map (fun t => match t.splitOn ":" with
+            | [vv, p] => (match vv.splitOn "," with | [a, b] => ((a, b), csv p) | _ => ((vv, vv), csv p))
+            | _ => ((t, t), [])) }
+        verdict (Guards.badDecl ps d)
+      | _ => "bad-op"
+  | "seq" :: rest => verdict (Guards.badSequence (parseSeq rest).1)
+  | "seqvars" :: rest =>
+      match splitOnTok ";" rest with
+      | [vars, given, o1, o2] =>
+        verdict (Guards.badSeqVars vars given o1 (o2.map (fun t => match t.splitOn "," with | [a, b] => (a, b) | _ => (t, t))))
+      | _ => "bad-op"
+  | "pulse" :: xs => verdict (Guards.pulseTooLarge (fun (x : Float) => x > 1) (xs.map fOfTok))
+  | _ => "bad-op"
+
 def step (d : DState) (line : String) : DState × List String :=
   let toks := (line.trimAscii.toString.splitOn " ").filter (· ≠ "")
   match toks with
@@ -309,6 +397,7 @@ def step (d : DState) (line : String) : DState × List String :=
   | ["sapply"] => ({ d with sm := RF.runItems d.opts d.items.toList d.sm, items := #[] },
       [s!"dur {bits ((d.items.toList.map Sim.Item.dur).foldl (· + ·) (0 : CF)).re}"])
   | ["simrun"] => ({ d with items := #[], probes := #[] }, simRun d)
+  | "guard" :: rest => (d, [guardCmd rest])
   | ["dumpd"] => (d, dumpDiff d)
   | ["dumpj"] => (d, dumpJets d)
   | ["bloch", N, kmax] => (d, [blochDump d N.toNat! kmax.toNat!])
